@@ -960,6 +960,113 @@ fn direct_constructors() {
 /// into zeroed memory, and zero buffers written over memory that is zero except near the ends, for
 /// every misalignment of both sides and lengths on both sides of 4096 (zero-detection shortcuts
 /// inspect the bytes in words: the unaligned head and tail are where they go wrong).
+/// HOST-address bits above 31: the container straddles an address whose low 32 bits are zero, and
+/// the local buffer is an ordinary one or lies exactly 4 GiB (+-8) above the bytes it is exchanged
+/// with. Every small length, every route; the bytes are compared with the model through raw reads.
+#[cfg(not(miri))]
+fn high_address_bits() {
+    use crate::common::bigspace::TwoWindows;
+    let Some(w) = TwoWindows::new() else {
+        out::note("C04/high-address-bits-skipped", J::s("could not reserve 8 GiB of address space".to_string()));
+        return;
+    };
+    w.fill(0);
+    let cbase = w.a - 64;
+    // SAFETY: 128 bytes inside the first read-write window.
+    let s = unsafe { VolatileSlice::new(cbase as *mut u8, 128) };
+    let mut model = vec![0u8; 128];
+    let mut n_ops = 0u64;
+    let mut tick = 0u8;
+    let mut check = |what: &str, goff: usize, n: usize, lsel: &str, model: &Vec<u8>| -> bool {
+        let mem = w.read(cbase, 128);
+        let margins_ok = w.read(cbase - 64, 64).iter().chain(w.read(cbase + 128, 64).iter()).all(|b| *b == 0);
+        if mem != *model || !margins_ok {
+            let at = mem.iter().zip(model.iter()).position(|(a, b)| a != b);
+            v(&format!("high-address-bits/{}/bytes-differ-from-model", what), jobj! {"host_address_low32_of_first_byte" => J::S(format!("{:#x}", (cbase + goff) as u32)), "len" => n, "local_buffer" => lsel, "first_difference_at_container_offset" => J::dbg(&at), "margins_ok" => margins_ok});
+            return false;
+        }
+        true
+    };
+    for goff in 40..=88usize {
+        for n in (1..=17usize).chain([24, 33]) {
+            if goff + n > 128 {
+                continue;
+            }
+            for lsel in ["ordinary", "4GiB-above", "4GiB+8-above", "4GiB-8-above"] {
+                // local buffer address
+                let mut heap = vec![0u8; 64];
+                let laddr = match lsel {
+                    "ordinary" => heap.as_mut_ptr() as usize + (goff % 8),
+                    "4GiB-above" => w.b - 64 + goff,
+                    "4GiB+8-above" => w.b - 64 + goff + 8,
+                    _ => w.b - 64 + goff - 8,
+                };
+                // SAFETY: `n` bytes inside the heap block / the second read-write window; no other
+                // reference to them exists while `lbuf` lives.
+                let lbuf: &mut [u8] = unsafe { std::slice::from_raw_parts_mut(laddr as *mut u8, n) };
+                // write: payload differs from the current contents in every byte
+                tick = tick.wrapping_add(1);
+                for (i, b) in lbuf.iter_mut().enumerate() {
+                    *b = !model[goff + i] ^ (tick & 0x7e);
+                }
+                let r = s.write(lbuf, goff);
+                model[goff..goff + n].copy_from_slice(lbuf);
+                if r.as_ref().ok() != Some(&n) || !check("write", goff, n, lsel, &model) {
+                    return;
+                }
+                // read back through read / read_slice
+                lbuf.iter_mut().for_each(|b| *b = 0);
+                let r = s.read(lbuf, goff);
+                if r.as_ref().ok() != Some(&n) || lbuf[..] != model[goff..goff + n] {
+                    v("high-address-bits/read/bytes-differ-from-model", jobj! {"host_address_low32_of_first_byte" => J::S(format!("{:#x}", (cbase + goff) as u32)), "len" => n, "local_buffer" => lsel});
+                    return;
+                }
+                // write_slice + objects of the matching width
+                for (i, b) in lbuf.iter_mut().enumerate() {
+                    *b = model[goff + i].wrapping_add(0x31);
+                }
+                let r = s.write_slice(lbuf, goff);
+                model[goff..goff + n].copy_from_slice(lbuf);
+                if r.is_err() || !check("write_slice", goff, n, lsel, &model) {
+                    return;
+                }
+                macro_rules! obj {
+                    ($T:ty) => {
+                        if n == size_of::<$T>() {
+                            let val = <$T>::from_ne_bytes(std::array::from_fn(|i| !model[goff + i]));
+                            let r = s.write_obj::<$T>(val, goff);
+                            model[goff..goff + n].copy_from_slice(&val.to_ne_bytes());
+                            if r.is_err() || !check(concat!("write_obj<", stringify!($T), ">"), goff, n, lsel, &model) {
+                                return;
+                            }
+                            if s.read_obj::<$T>(goff).ok() != Some(val) {
+                                v(concat!("high-address-bits/read_obj<", stringify!($T), ">/value-differs"), jobj! {"host_address_low32_of_first_byte" => J::S(format!("{:#x}", (cbase + goff) as u32))});
+                                return;
+                            }
+                            // other routes see the same bytes
+                            if (cbase + goff) % n == 0 {
+                                if s.load::<$T>(goff, Ordering::SeqCst).ok() != Some(val) || s.get_ref::<$T>(goff).map(|r| r.load()).ok() != Some(val) {
+                                    v(concat!("high-address-bits/load<", stringify!($T), ">/routes-disagree"), jobj! {"host_address_low32_of_first_byte" => J::S(format!("{:#x}", (cbase + goff) as u32))});
+                                    return;
+                                }
+                            }
+                        }
+                    };
+                }
+                obj!(u8);
+                obj!(u16);
+                obj!(u32);
+                obj!(u64);
+
+                n_ops += 4;
+                out::key(&format!("high-address-bits|n{}|{}|first-byte-{}", n.min(17), lsel, if goff < 64 && goff + n > 64 { "straddles-2^32" } else if goff == 64 { "at-2^32" } else if goff < 64 { "below" } else { "above" }), true);
+            }
+        }
+    }
+    out::count("high_address_bits_transfers", n_ops as i128);
+    out::eval(n_ops);
+}
+
 fn almost_zero_transfers(shard: (u64, u64)) {
     let a = Cont::arena(3 * 4096 + 64, Place::C(0));
     let s = a.slice();
@@ -1131,6 +1238,12 @@ pub fn run(args: &Args) {
         }
         if let Err(p) = guarded(|| big_transfers(args.shard())) {
             v(&format!("panic/big/{}", panic_sig(&p)), J::s(p));
+        }
+    }
+    #[cfg(not(miri))]
+    if si == 1 % args.shard().1 && !args.flag("nobig") && std::env::var("VMV_ARENA").as_deref() != Ok("heap") {
+        if let Err(p) = guarded(high_address_bits) {
+            v(&format!("panic/high-address-bits/{}", panic_sig(&p)), J::s(p));
         }
     }
     if si == 0 {
